@@ -210,18 +210,38 @@ class Facts:
 
     def assume_zero(self, p):
         """returns a list of alternative Facts (disjunction) after assuming p = 0; raises Infeasible if impossible"""
+        done = []
+        work = [(self, [p])]
+        first = True
+        while work:
+            f, pend = work.pop()
+            if not pend:
+                done.append(f)
+                continue
+            g0 = pend[0]
+            rest = pend[1:]
+            try:
+                alts = f._assume_zero_one(g0)
+            except Infeasible:
+                continue
+            for f2, more in alts:
+                work.append((f2, rest + more))
+        if not done:
+            raise Infeasible("all alternatives infeasible")
+        return done
+
+    def _assume_zero_one(self, p):
+        """one hypothesis p = 0: list of (Facts, [derived equations still to be assumed])"""
         p = self.norm(p)
-        if p.is_zero():
-            return [self]
-        if self.is_zero(p):
-            return [self]
+        if p.is_zero() or self.is_zero(p):
+            return [(self, [])]
         if self.is_nonzero(p):
             raise Infeasible("zero hypothesis on a non-zero value")
         pe = p
         if any(p.degree_in(n) for n, _ in self.nus):
             pe = self.elim(p)        # p = 0 <=> elim(p) = 0 (the N's are non-zero)
             if pe.is_zero():
-                return [self]
+                return [(self, [])]
         c, facs = factor(pe)
         cands = []
         for f, _ in facs:
@@ -237,8 +257,8 @@ class Facts:
         for g in cands:
             f2 = self.copy() if len(cands) > 1 else self
             try:
-                f2._orient(g)
-                outs.append(f2)
+                derived = f2._orient(g)
+                outs.append((f2, derived))
             except Infeasible:
                 pass
         if not outs:
@@ -246,7 +266,8 @@ class Facts:
         return outs
 
     def _orient(self, g):
-        """turn the hypothesis g = 0 into a substitution"""
+        """turn the hypothesis g = 0 into a substitution (g linear in a variable with a unit coefficient) or a
+        rewrite rule (g monic in a variable); returns derived equations (from rules whose head was substituted)"""
         best = None
         for v in sorted(g.vars()):
             if v.startswith('nu'):
@@ -272,6 +293,23 @@ class Facts:
             if best is None or score < best[0]:
                 best = (score, v, coef, rest)
         if best is None:
+            # monic in some variable: keep it as a rewrite rule  v^d -> -(lower part)/lc
+            for v in sorted(g.vars()):
+                if v.startswith('nu') or any(v == rv for rv, _, _ in self.rules):
+                    continue
+                d = g.degree_in(v)
+                cs = g.coeffs_in(v)
+                lc = cs[d]
+                if d >= 2 and lc.is_const():
+                    inv = pow(lc.const_value() % self.char, -1, self.char)
+                    lower = Poly()
+                    for e, cf in cs.items():
+                        if e != d:
+                            lower = lower + cf * (V(v) ** e)
+                    self.rules.append((v, d, self.norm(lower * (-inv))))
+                    self._renormalise()
+                    self.log.append(('rule', v, d))
+                    return []
             from interp import Unsupported
             raise Unsupported("cannot orient hypothesis %r = 0" % (g,))
         _, v, coef, rest = best
@@ -284,11 +322,24 @@ class Facts:
             nu = self.new_nu(coef)
             rhs = -(rest * nu)
         rhs = self.norm(rhs)
+        derived = []
+        # a rule whose head variable is substituted becomes an equation to be assumed in turn
+        keep = []
+        for rv, k, r in self.rules:
+            if rv == v:
+                derived.append(rhs ** k - r)
+            else:
+                keep.append((rv, k, r))
+        self.rules = keep
         # compose into the substitution map
         self.sub = {k: val.subst({v: rhs}) for k, val in self.sub.items()}
         self.sub[v] = rhs
-        # a rule whose head variable was substituted is dropped (weakens the hypotheses: sound)
-        self.rules = [(rv, k, r.subst({v: rhs})) for rv, k, r in self.rules if rv != v]
+        self.rules = [(rv, k, r.subst({v: rhs})) for rv, k, r in self.rules]
+        self._renormalise()
+        self.log.append(('subst', v, rhs))
+        return derived
+
+    def _renormalise(self):
         self.nus = [(n, self.norm(N)) for n, N in self.nus]
         newnz = []
         for nz in self.nonzero:
@@ -301,4 +352,3 @@ class Facts:
         for n, N in self.nus:
             if self.is_zero(N):
                 raise Infeasible("hypothesis makes an inverted value zero")
-        self.log.append(('subst', v, rhs))
